@@ -403,8 +403,25 @@ def numbering(P, E, chk, r3, de, dd, tv, qa):
             an_ds = an.before_node(x["n"]) or []
             if all(guard.d_holds(d, "==", "type", tv["T_SRV"]) for d in an_ds):
                 rextra = cval(sk(x["a"][1]))
-    chk.site(r3, dd, dd.line, "SRV extra fields", wextra == rextra and wextra is not None,
-             "writer emits %s extra bytes for SRV, reader skips %s" % (wextra, rextra))
+    if rextra is None:
+        # any constant skip of a cursor under type == SRV (the cursor may be a helper's local copy)
+        cands = set()
+        for b, x in dd.all_nodes():
+            if x.get("k") == "Bin" and x["op"] == "+=" and cval(sk(x["a"][1])) is not None and \
+                    (sk(x["a"][0]).get("t") or {}).get("k") == "ptr":
+                an_ds = an.before_node(x["n"]) or []
+                if an_ds and all(any(g.kind == "cmp" and g.op == "==" and g.key[2] == tv["T_SRV"] for g in d) for d in an_ds):
+                    cands.add(cval(sk(x["a"][1])))
+        if len(cands) == 1:
+            rextra = next(iter(cands))
+        elif not cands:
+            rextra = 0          # nothing is skipped under type == SRV
+    if rextra is None:
+        chk.undecided(r3, dd, dd.line, "SRV extra fields", "the reader's skip of the SRV weight/port fields was not found as a constant "
+                      "advance of a cursor under type == SRV")
+    else:
+        chk.site(r3, dd, dd.line, "SRV extra fields", wextra == rextra and wextra is not None,
+                 "writer emits %s extra bytes for SRV, reader skips %s" % (wextra, rextra))
 
 
 def affixes(P, E, chk, r4, wn, nd, reader):
